@@ -342,25 +342,45 @@ func decompressFrom(c compress.Codec, source io.Reader, dst func() int) ([]byte,
 	var res []byte
 	var ns []int
 	k := 0
+	var scratch []byte
 	for {
 		// the caller's buffer is a PREFIX of a larger array every other call (len(p) < cap(p): buf[:n] slicing,
 		// io.LimitedReader, scratch arrays); the spare capacity is filled with a sentinel that Read must not touch
 		want := dst()
 		spare := 0
-		if k%2 == 1 {
-			spare = []int{1, 100, 4096, 70000}[(k/2)%4]
+		switch {
+		case k%2 == 0:
+		case k < 8 || k%64 == 1: // a whole block (up to 32 KiB and more) fits into the spare capacity
+			spare = 70000
+		case k%16 == 3:
+			spare = 4096
+		default:
+			spare = []int{1, 100}[(k/2)%2]
 		}
 		k++
-		backing := make([]byte, want+spare)
-		for i := want; i < len(backing); i++ {
+		if cap(scratch) < want+spare {
+			scratch = make([]byte, want+spare)
+		}
+		backing := scratch[:want+spare]
+		// sentinels right behind len(p) and at the end of the capacity (the whole spare is not refilled on every call)
+		guards := []int{}
+		for i := want; i < len(backing) && i < want+64; i++ {
+			guards = append(guards, i)
+		}
+		for i := len(backing) - 64; i < len(backing); i++ {
+			if i >= want+64 {
+				guards = append(guards, i)
+			}
+		}
+		for _, i := range guards {
 			backing[i] = 0xA5
 		}
-		buf := backing[:want]
+		buf := backing[:want:len(backing)]
 		n, err := r.Read(buf)
 		if n < 0 || n > len(buf) {
 			return res, append(ns, n), fmt.Errorf("Read(p) with len(p)=%d cap(p)=%d returned n=%d: io.Reader contract violated", len(buf), cap(buf), n)
 		}
-		for i := want; i < len(backing); i++ {
+		for _, i := range guards {
 			if backing[i] != 0xA5 {
 				return res, append(ns, n), fmt.Errorf("Read(p) with len(p)=%d cap(p)=%d wrote beyond len(p)", len(buf), cap(buf))
 			}
@@ -824,7 +844,7 @@ func main() {
 	thorough := gen.Thorough()
 	rounds := 1
 	if thorough {
-		rounds = 6
+		rounds = 5
 	}
 	cs := codecs()
 	if len(os.Args) > 2 && os.Args[1] == "pristine" {
